@@ -33,6 +33,12 @@ pub mod sched {
     pub fn preemption_bound() -> usize {
         BOUND.load(std::sync::atomic::Ordering::SeqCst)
     }
+    /// The first `n` parallel regions of an execution run their items one after the other in item order, without choice points:
+    /// a warm-up that takes the subject to a non-initial state (a filled cache, say) before exploration starts.
+    pub(crate) static WARMUP: std::sync::atomic::AtomicU64 = std::sync::atomic::AtomicU64::new(0);
+    pub fn set_warmup_regions(n: u64) {
+        WARMUP.store(n, std::sync::atomic::Ordering::SeqCst);
+    }
 
     #[derive(Default)]
     pub(crate) struct State {
@@ -263,6 +269,21 @@ fn run_region<'a, T: Send + 'a>(thunks: Vec<Thunk<'a, T>>) -> (Vec<Option<T>>, V
     }
     if pool::is_active() {
         return pool::run_region(thunks);
+    }
+    {
+        let mut g = sched::STATE.lock().unwrap();
+        let st = g.as_mut().unwrap();
+        if st.regions < sched::WARMUP.load(std::sync::atomic::Ordering::SeqCst) {
+            st.regions += 1;
+            st.tasks += n as u64;
+            drop(g);
+            let mut order = Vec::new();
+            let res = thunks.into_iter().enumerate().map(|(i, t)| {
+                order.push(i);
+                t()
+            }).collect();
+            return (res, order);
+        }
     }
     let results: Mutex<Vec<Option<Option<T>>>> = Mutex::new((0..n).map(|_| None).collect());
     let exec_order: Mutex<Vec<usize>> = Mutex::new(Vec::new());
